@@ -97,6 +97,7 @@ type world struct {
 	seen   map[string][]string // key -> values it ever had (for the hash tables)
 	keyset []string
 	sig    []string
+	raw    []byte
 }
 
 func newWorld(c *core.Ctx, t *core.Trace, r *rand.Rand) *world {
@@ -132,7 +133,14 @@ func (w *world) remember() {
 
 // writeFile plays the external writer: the whole file replaced, then the virtual mtime set.
 func (w *world) writeFile() []byte {
-	data := renderFile(w.r, w.lines, w.forms, w.eol, w.final)
+	final := w.final
+	if n := len(w.lines); n > 0 && w.lines[n-1].T == "b" && len(w.lines[n-1].V) == 0 {
+		final = true // an empty last line exists only through the terminator that follows it
+	}
+	data := renderFile(w.r, w.lines, w.forms, w.eol, final)
+	if w.raw != nil { // a witness history: the file is given byte for byte
+		data, w.raw = w.raw, nil
+	}
 	if w.r.Intn(2) == 0 {
 		if err := os.WriteFile(w.path, data, 0o644); err != nil {
 			panic(err)
@@ -641,12 +649,14 @@ func histWb(c *core.Ctx, t *core.Trace, gen string, cas int, md wbMode) {
 	}
 }
 
-// fixed witness histories of the open findings
-func histWitness(c *core.Ctx, t *core.Trace, gen string, file []Line, forms []int, kv map[string]string) {
+// fixed witness histories of the open findings: the file byte for byte, one write-back, one reload
+func histWitness(c *core.Ctx, t *core.Trace, gen string, file string, kv map[string]string) {
 	r := c.Rng(gen, 0)
 	w := newWorld(c, t, r)
 	defer w.done()
-	w.lines, w.forms = file, forms
+	w.raw = []byte(file)
+	w.lines = parseProps(w.raw)
+	w.forms = make([]int, len(w.lines))
 	w.reset(gen, 0, "", "", nil, 1)
 	if w.conf == nil {
 		return
@@ -668,7 +678,7 @@ func Run(c *core.Ctx) error {
 	tf := c.Trace("c18_fs", "Trace_FsWrite")
 
 	if c.WantGen("edit") {
-		n := c.Pick(120, 1500)
+		n := c.Pick(250, 1500)
 		for cas := 0; cas < n; cas++ {
 			if c.Want("edit", cas) {
 				histEdit(c, t, "edit", cas)
@@ -683,22 +693,21 @@ func Run(c *core.Ctx) error {
 		if hasKF(c, kfEscaping) {
 			md.exoticKeys, md.plainVals = false, true
 		}
-		n := c.Pick(100, 1200)
+		n := c.Pick(200, 1200)
 		for cas := 0; cas < n; cas++ {
 			if c.Want("wb", cas) {
 				histWb(c, t, "wb", cas, md)
 			}
 		}
 	}
-	if c.WantGen("kf_wbsyntax") && c.Want("kf_wbsyntax", 0) {
-		histWitness(c, t, "kf_wbsyntax",
-			[]Line{{T: "c", V: []byte("# settings")}, {T: "kv", K: []byte("a"), V: []byte("1")}, {T: "kv", K: []byte("b"), V: []byte("2")}},
-			[]int{0, fColon, fEq}, map[string]string{"b": "3"})
+	// witnesses of the open findings run only on request (they are rejected by design)
+	if c.OnlyGen == "kf_wbsyntax" {
+		// a key line the syntax allows but the write-back does not recognise: "port<TAB>=<TAB>6600"
+		histWitness(c, t, "kf_wbsyntax", "# settings\nport\t=\t6600\nb=2\n", map[string]string{"b": "3"})
 	}
-	if c.WantGen("kf_wbescape") && c.Want("kf_wbescape", 0) {
-		histWitness(c, t, "kf_wbescape",
-			[]Line{{T: "kv", K: []byte("a"), V: []byte("1")}},
-			[]int{fEq}, map[string]string{"greeting": " hello", "path": "two\\\\slashes"})
+	if c.OnlyGen == "kf_wbescape" {
+		// values that need the syntax's escapes: a leading blank, two backslashes
+		histWitness(c, t, "kf_wbescape", "a=1\n", map[string]string{"greeting": " hello", "path": "two\\\\slashes"})
 	}
 	if c.WantGen("conc") {
 		n := c.Pick(1, 3)
